@@ -17,6 +17,12 @@ CLAIMED = {
  'C12': ('vc-front', 'exploration', 'proptest generators: re-laid corpus with multi-byte comments/strings; oracle = source[pos..pos+len] == token text and line/column recomputed from the text',
          'Generated-input search against an independent position oracle recomputed from the raw text, for every token and comment of every generated file; one defect repaired (fix: commit), one recorded (external lexer crate).',
          'Oracle recomputes line/column by counting characters in the source; trusts only that token text is what the parser reports.', 'C12'),
+ 'C28': ('vc-doc', 'exploration', 'proptest choice-sequence generator of Doc trees (emitter-style with anchors / formatter-style with break-only text) x RenderOpts; oracle = leaf sequence of the output (both directions), break-only text present iff a witness Line of its group rendered as newline, anchor line/column recomputed from the output text',
+         'Generated-input search (1.5 million documents per quick run, ~25% with a broken and a flat group) against a content/anchor oracle recomputed from the rendered text alone; failures shrink to a replay file. One defect found (anchor column after a multi-line block comment).',
+         'Documents are built the way the emitter and formatter build them (node kinds and positions read from their builders), not taken from real emitter runs; pad widths and trailing-blank stripping are not asserted.', 'C28'),
+ 'C29': ('vc-doc', 'exploration', 'stateful model-based testing: generated Vec<Op> over the Store API interpreted against the real store in a scratch directory and an in-memory model (last saved map + blob bytes); invariants after every reopen and save',
+         'Generated operation histories (about 5 000 per quick run, 80% with save + reopen + identical re-scan) checked step by step against a reference model, including shared blobs, key changes, tampered manifests and the skipped-write path; failing histories shrink as one value.',
+         'Only sequences the real callers can produce (save after a successful build, set_* on entries of the current build). Blob-file damage and concurrent stores belong to C05/C30.', 'C29'),
 }
 props = [json.loads(l) for l in open(f'{ROOT}/properties.jsonl')]
 NA_REASON = json.load(open(f'{ROOT}/tools/not_claimed.json'))
